@@ -421,6 +421,58 @@ def shard(task):
   return {'stats': stats, 'violations': list(vios.values())}
 
 
+def reference_shard(task):
+  """BBOB problems against the function definitions themselves, in dimensions 2, 5 and 12 (twelve parameters x0..x11: the
+  name order differs from the declaration order), on asymmetric points; and the restricting shift wrapper with a different
+  shift per coordinate, against the base function at x - shift."""
+  vz = _vz()
+  from vizier._src.benchmarks.experimenters import numpy_experimenter as ne, shifting_experimenter
+  from vizier._src.benchmarks.experimenters.synthetic import bbob
+  vios, n = {}, 0
+  for fn in task['fns']:
+    f = getattr(bbob, fn)
+    for dim in (2, 5, 12):
+      def mk(dim=dim):
+        return ne.NumpyExperimenter(f, bbob.DefaultBBOBProblemStatement(dim))
+      ps = mk().problem_statement()
+      names = [pc.name for pc in ps.search_space.parameters]
+      pts = [np.array([-4.0 + 0.7 * i for i in range(dim)]), np.array([4.5 - 0.6 * i for i in range(dim)]),
+             np.array([(-1.0) ** i * (0.5 + 0.3 * i) for i in range(dim)]), np.zeros(dim), np.array([1.0 if i == dim - 1 else 0.0 for i in range(dim)]) * 3.0]
+      metric = ps.metric_information.item().name
+      for x in pts:
+        n += 1
+        try:
+          want = float(np.asarray(f(x.copy())).reshape(-1)[0])     # some definitions reshape their argument in place
+        except Exception:  # pylint: disable=broad-except
+          continue
+        for order in ('declared', 'reversed'):
+          items = list(zip(names, x.tolist()))
+          t = vz.Trial(parameters=dict(items if order == 'declared' else items[::-1]))
+          mk().evaluate([t])
+          got = metrics_of(t)
+          if got is None or not (math.isclose(got[metric], want, rel_tol=1e-9, abs_tol=1e-9) or (math.isnan(got[metric]) and math.isnan(want))):
+            sig = 'C20|base-value-differs-from-definition|bbob'
+            vios.setdefault(sig, {'sig': sig, 'desc': 'bbob %s dim %d at %s (parameters given in %s order): the experimenter reports %s, the function itself gives %r' % (fn, dim, x.tolist(), order, got, want),
+                                  'case': {'experimenter': 'bbob:%s:%d' % (fn, dim)}})
+        # shift wrapper with a different shift per coordinate (restricted space: x - shift lies in the base space)
+        shift = np.array([0.25 * ((i % 3) - 1) + 0.05 * i for i in range(dim)])
+        xs = np.clip(x, -5.0 + np.maximum(shift, 0), 5.0 + np.minimum(shift, 0))
+        try:
+          w = shifting_experimenter.ShiftingExperimenter(mk(), shift, should_restrict=True)
+          t = vz.Trial(parameters=dict(zip(names, xs.tolist())))
+          w.evaluate([t])
+          got = metrics_of(t)
+          want = float(np.asarray(f((xs - shift).copy())).reshape(-1)[0])
+          if got is None or not (math.isclose(got[metric], want, rel_tol=1e-7, abs_tol=1e-7) or (math.isnan(got[metric]) and math.isnan(want))):
+            sig = 'C20|relation|shifting-per-coordinate'
+            vios.setdefault(sig, {'sig': sig, 'desc': 'shifting(%s) over bbob %s dim %d at %s: the wrapper reports %s, the function at x - shift gives %r' % (shift.tolist(), fn, dim, xs.tolist(), got, want),
+                                  'case': {'experimenter': 'bbob:%s:%d' % (fn, dim)}})
+        except Exception as e:  # pylint: disable=broad-except
+          sig = 'C20|evaluate-raises|shifting-per-coordinate'
+          vios.setdefault(sig, {'sig': sig, 'desc': 'shifting(%s) over bbob %s dim %d raises %r' % (shift.tolist(), fn, dim, e), 'case': {'experimenter': 'bbob:%s:%d' % (fn, dim)}})
+  return {'n': n, 'violations': list(vios.values())}
+
+
 def seeded_values(quick=True):
   """Values of every seeded (pseudo-random but reproducible) experimenter on a few points: what a fresh interpreter must give
   again, whatever its string-hash salt."""
@@ -480,6 +532,12 @@ def run(ctx):
   for r in ctx.pmap('shard', tasks):
     for k in tot:
       tot[k] += r['stats'][k]
+    ctx.extend(r['violations'])
+  fns = ['Sphere', 'Rastrigin', 'BuecheRastrigin', 'LinearSlope', 'AttractiveSector', 'StepEllipsoidal', 'RosenbrockRotated', 'Ellipsoidal', 'Discus',
+         'BentCigar', 'SharpRidge', 'DifferentPowers', 'Weierstrass', 'SchaffersF7', 'SchaffersF7IllConditioned', 'GriewankRosenbrock', 'Schwefel', 'Katsuura',
+         'Lunacek', 'Gallagher101Me', 'Gallagher21Me', 'NegativeSphere', 'NegativeMinDifference', 'FonsecaFleming']
+  for r in ctx.pmap('reference_shard', [{'fns': fns[i::8]} for i in range(8)]):
+    tot['evaluations'] += 3 * r['n']
     ctx.extend(r['violations'])
   # seeded experimenters in fresh interpreters with different string-hash salts
   kids = list(ctx.pmap('child', [{'hashseed': h} for h in ((0, 1, 4242) if ctx.quick else (0, 1, 2, 4242, 987654321))]))
